@@ -40,6 +40,9 @@ def independent_decode(rec):
     return (ts, data, struct.unpack('<QQQQ', data), tid, dbg, dbg & 0xfffffffc, dbg & 3)
 
 
+BIG_FILLS = [0]
+
+
 class FileGen:
     def __init__(self, rnd):
         self.rnd = rnd
@@ -57,7 +60,13 @@ class FileGen:
         self.ts += 1
         b[56:64] = struct.pack('<Q', self.ts)         # 'unused' word keeps records pairwise distinct... (not decoded)
         b[1:5] = struct.pack('<I', self.ts)            # ...and so do timestamp bytes 1..4
-        if lead == 'nz':
+        if lead == 'magic':
+            # the record BEGINS with bytes the reader looks for elsewhere in a file (version magics, section tags, the
+            # stackshot marker - mined from the sources): inside the record area they are just the low bytes of a timestamp
+            from . import mine
+            m = rnd.choice(mine.infra()['bytes'] or [b'\x00\x02\xaa\x55'])
+            b[0:len(m)] = m
+        elif lead == 'nz':
             b[0] = rnd.randrange(1, 256)
         elif lead == 'z':
             k = rnd.choice([1, 1, 2, 8, 9, 40, 48])
@@ -69,9 +78,11 @@ class FileGen:
     def v2(self, lead='nz', nrec=None, pad=None):
         rnd = self.rnd
         n = rnd.choice([0, 1, 2, 5, 20]) if nrec is None else nrec
-        recs = [self.record(lead if i == 0 else None) for i in range(n)]
+        recs = [self.record(lead if i == 0 else ('magic' if rnd.random() < 0.12 else None)) for i in range(n)]
         # incl. lengths around page / buffer sizes (4 KiB, 8 KiB, 16 KiB, 64 KiB)
-        pad = rnd.choice([0, 0, 1, 7, 63, 64, 200, 4000, 4095, 4096, 4097, 4160, 8192, 8193, 16384, 16448, 65536, 65537]) if pad is None else pad
+        from . import mine
+        pad = rnd.choice([0, 0, 1, 7, 63, 64, 200, 4000, 4095, 4096, 4097, 4160, 8192, 8193, 16384, 16448, 65536, 65537] +
+                         [h + d for h in mine.size_hints(512) for d in (1, 64)]) if pad is None else pad
         return {'ver': 2, 'tmap': self.tmap(), 'recs': list(range(1, n + 1)), '_recs': recs, '_pad': pad}
 
     def block(self, kind, strings, minlogs=0):
@@ -103,7 +114,7 @@ class FileGen:
         cuts = sorted(rnd.randrange(0, n + 1) for _ in range(k - 1))
         ids = list(range(1, n + 1))
         chunks = [ids[a:b] for a, b in zip([0] + cuts, cuts + [n])]
-        recs = [self.record() for _ in range(n)]
+        recs = [self.record('magic' if (i and rnd.random() < 0.12) else None) for i in range(n)]
         strings = ['msg %d' % i for i in range(rnd.randrange(1, 5))] + ['procA', 'procB', '']
         rnd.shuffle(strings)
         nb = rnd.choice([0, 1, 2, 3, 4, 6]) if nblocks is None else nblocks
@@ -120,8 +131,16 @@ class FileGen:
         rnd = self.rnd
         parts = []
         if big and rnd.random() < 0.08:      # a marker that straddles an I/O buffer boundary (4 / 8 / 16 KiB)
-            n = rnd.choice([4096, 8192, 16384, 65536, 65536, 131072]) - rnd.randrange(0, 24)
-            parts.append(bytes((i * 31 + 7) % 251 + 1 for i in range(n)))
+            from . import mine
+            hints = [h for h in mine.infra()['sizes'] if 512 <= h <= (1 << 21)]     # (also large ones: a filler is cheap to build)
+            n = rnd.choice([4096, 8192, 16384, 65536, 65536, 131072] + hints + hints) - rnd.choice([rnd.randrange(0, 24), 1, 7, 9, 15])
+            if n > 200000:
+                BIG_FILLS[0] += 1
+                if BIG_FILLS[0] > 60:             # ... but slow to scan byte by byte: a handful per run
+                    n = 65536 - rnd.randrange(0, 24)
+            target = n
+        else:
+            target = 0
         for _ in range(rnd.randrange(0, 4)):
             r = rnd.random()
             if r < 0.3:
@@ -143,6 +162,9 @@ class FileGen:
             ghost[56:64] = struct.pack('<Q', 0x6706057)
             b += (E.TAG_THREADMAP + struct.pack('<Q', 28) + E.threadmap_entry(ctid(3), cpid(4), b'ghost') +
                   bytes(rnd.randrange(0, 9)) + E.TAG_EVENTS + struct.pack('<Q', 64) + bytes(8) + bytes(ghost) + bytes(8))
+        if target > len(b):
+            # the WHOLE filler has the chosen length (what follows it starts that far from where the reader began to search)
+            b = bytes((i * 31 + 7) % 251 + 1 for i in range(target - len(b))) + b
         return b
 
 
